@@ -74,6 +74,7 @@ type job struct {
 	SeqRes   []seqResult    `json:"seq_res"`
 	Rounds   []round        `json:"rounds"`
 	Results  [][]pushResult `json:"results"`
+	RoundMs  []int64        `json:"round_ms"`
 }
 
 const sharedRef = "refs/heads/a"
@@ -103,8 +104,11 @@ func childMain(path string) {
 		}
 	}
 	j.Results = make([][]pushResult, len(j.Rounds))
+	j.RoundMs = make([]int64, len(j.Rounds))
 	for i := range j.Rounds {
+		t0 := time.Now()
 		j.Results[i] = runRound(&j.Rounds[i])
+		j.RoundMs[i] = time.Since(t0).Milliseconds()
 	}
 	out, _ := json.Marshal(&j)
 	if err := os.WriteFile(path+".out", out, 0o644); err != nil {
@@ -221,14 +225,14 @@ func onePush(ctx context.Context, r *round, req []byte) ([]byte, string) {
 // ---- parent: generation, observation, judgement ----
 
 func runConcurrent(c *vf.Ctx, e *env) {
-	n := c.N(36, 600)
+	n := c.N(36, 300)
 	per := 150
 	for start := 0; start < n; start += per {
 		end := min(start+per, n)
 		runConcurrentBatch(c, e, start, end)
 	}
-	c.Floor("concurrent rounds judged", c.Counter("concurrent_rounds"), c.N(30, 500))
-	c.Floor("concurrent pushes answered", c.Counter("concurrent_pushes"), c.N(90, 1500))
+	c.Floor("concurrent rounds judged", c.Counter("concurrent_rounds"), c.N(30, 250))
+	c.Floor("concurrent pushes answered", c.Counter("concurrent_pushes"), c.N(90, 750))
 }
 
 func runConcurrentBatch(c *vf.Ctx, e *env, from, to int) {
@@ -297,6 +301,9 @@ func runConcurrentBatch(c *vf.Ctx, e *env, from, to int) {
 			continue
 		}
 		jr.Rounds = append(jr.Rounds, outs[w].Rounds...)
+		for i, ms := range outs[w].RoundMs {
+			c.Count("info_round_ms_"+outs[w].Rounds[i].Entry, int(ms))
+		}
 		jr.Results = append(jr.Results, outs[w].Results...)
 	}
 	vf.Parallel(len(jr.Rounds), 8, func(i int) {
@@ -386,12 +393,12 @@ func (e *env) runSeqChildren(ps []*pending, start int) bool {
 		}
 		for k, i := range owner[w] {
 			p, r := ps[i], jr.SeqRes[k]
-			om := &Outcome{Server: "gogit-mem", Err: r.MemErr, Panic: r.MemPanic, Final: r.MemFinal, Exists: r.MemExists, Hint: maskFromLog(p.cs.Cmds, r.MemLog), Log: r.MemLog}
+			om := &Outcome{Server: "gogit-mem", Err: r.MemErr, Panic: r.MemPanic, Final: r.MemFinal, Exists: r.MemExists, Hint: maskFromLog(p.cs.Cmds, r.MemLog), Log: nonNil(r.MemLog)}
 			if om.Final == nil {
 				om.Final = map[string]string{}
 			}
 			om.Report, _ = parseOutput(r.MemOut, !p.cs.Stateless, p.cs.sideband())
-			of := &Outcome{Server: "gogit-fs", Err: r.FsErr, Panic: r.FsPanic, Hint: maskFromLog(p.cs.Cmds, r.FsLog), Log: r.FsLog}
+			of := &Outcome{Server: "gogit-fs", Err: r.FsErr, Panic: r.FsPanic, Hint: maskFromLog(p.cs.Cmds, r.FsLog), Log: nonNil(r.FsLog)}
 			of.Report, _ = parseOutput(r.FsOut, !p.cs.Stateless, p.cs.sideband())
 			p.outs = []*Outcome{om, of}
 		}
@@ -502,4 +509,11 @@ func judgeRound(c *vf.Ctx, e *env, r *round, res []pushResult) {
 		// with a lost update already reported, fsck adds nothing; otherwise the store must stay sound
 		c.Fail("concurrent:fsck", "git fsck --connectivity-only fails after concurrent pushes: "+fr.String()+"\n"+what, replay)
 	}
+}
+
+func nonNil(l []refOp) []refOp {
+	if l == nil {
+		return []refOp{}
+	}
+	return l
 }
